@@ -44,7 +44,8 @@ type peer struct {
 	release   chan struct{} // closed at the end of the scenario: stalled handlers leave
 	sid       string
 	armed     string // "" | close | reset: what happens to every connection from now on, right at accept (before the request is read)
-	// hs: how the peer treats the handshake ("" = it succeeds): endpointStall (legacy: the stream is up, no endpoint event) |
+	// hs: how the peer treats the handshake ("" = it succeeds): getHold (the GET of the event stream is accepted, no response
+	// headers come: legacy = before anything else of the handshake, Streamable = the listening stream after it) | endpointStall (legacy: the stream is up, no endpoint event) |
 	// postStall (legacy: initialize accepted with 202, never answered) | postHold (the initialize POST is never responded to; the
 	// script may answer it later through initHeld) | postReset | http500 | errorReply | garbage | initializedRefused
 	hs       string
@@ -171,7 +172,9 @@ func (p *peer) streamable(w http.ResponseWriter, r *http.Request) {
 	switch r.Method {
 	case http.MethodGet:
 		c, _ := p.hijack(w)
-		io.WriteString(c, "HTTP/1.1 200 OK\r\nContent-Type: text/event-stream\r\nCache-Control: no-cache\r\n\r\n")
+		if p.hs != "getHold" { // getHold: the listening stream's request is accepted, no response headers ever come
+			io.WriteString(c, "HTTP/1.1 200 OK\r\nContent-Type: text/event-stream\r\nCache-Control: no-cache\r\n\r\n")
+		}
 		p.mu.Lock()
 		p.getConns = append(p.getConns, c)
 		p.mu.Unlock()
@@ -244,6 +247,10 @@ func (p *peer) legacyStream(w http.ResponseWriter, r *http.Request) {
 	p.mu.Lock()
 	p.stream = c // before the endpoint event: the client posts as soon as it has the endpoint
 	p.mu.Unlock()
+	if p.hs == "getHold" { // the request is accepted, no response headers ever come
+		close(p.streamUp)
+		return
+	}
 	io.WriteString(c, "HTTP/1.1 200 OK\r\nContent-Type: text/event-stream\r\nCache-Control: no-cache\r\n\r\n")
 	if p.hs != "endpointStall" {
 		io.WriteString(c, "event: endpoint\ndata: /message?sessionId="+p.sid+"\n\n")
